@@ -146,9 +146,15 @@ def build_world(w):
         if not w.get("call", True):
             dkw["call"] = False
     elif kind == "forward_start":
-        dkw = {"strike": 1.0, "start": dt}
+        # start date strictly inside the grid where the grid allows it (0 < k < T-1): there are steps
+        # before the start, whose information does not contain the start price
+        dkw = {"strike": 1.0, "start": max(1, T - 2) * dt}
     elif kind == "variance_swap":
         dkw = {"strike": 0.0625}
+    if w.get("mat_k") is not None:
+        # the derivative's OWN maturity (mat_k steps) differs from the registered grid (T points): the
+        # underlier is shared with / was simulated for another horizon
+        dkw["maturity"] = w["mat_k"] * dt
     d = market.derivative(kind, p, T=T, dt=dt, **dkw)
     listed = w.get("listed")
     if listed == "bs":
@@ -169,10 +175,16 @@ def build_world(w):
     if hv in ("ul+listed", "listed", "ul+listed+listed3", "listed+ul"):
         l2 = I.EuropeanOption(p, strike=PRICER_STRIKE, maturity=(T - 1) * dt)
         l2.list(_dyadic_pricer, cost=0.0)
+    if hv == "ul+listed_short":
+        # the Hedger docstring's setting: a short-dated listed option (Black-Scholes pricer of the docs) on
+        # the same stock hedges a longer-dated derivative; its maturity is NOT the grid's
+        l2 = I.EuropeanOption(p, strike=PRICER_STRIKE, maturity=max(1, T - 3) * dt)
+        l2.list(_bs_pricer_european, cost=0.0)
     if hv == "ul+listed+listed3":
         l3 = I.LookbackOption(p, strike=1.0, maturity=(T - 1) * dt)
         l3.list(_dyadic_max_pricer, cost=0.0)
     out.hedge = {"default": None, "ul": [p], "ul+listed": [p, l2], "listed+ul": [l2, p], "listed": [l2],
+                 "ul+listed_short": [p, l2],
                  "ul+listed+listed3": [p, l2, l3]}[hv]
     out.H = 1 if out.hedge is None else len(out.hedge)
     return out
@@ -377,17 +389,30 @@ class Recorder(Module):
         return out
 
 
+def model_shape_ok(m, w):
+    """Constraints that are about tensor shapes / the harness, not about applicability."""
+    H = {"default": 1, "ul": 1, "listed": 1}.get(w.get("hedge", "default"), 2)
+    if m["model"] in ("bs", "ww"):
+        if H != 1:
+            return False
+        if m["model"] == "ww" and m.get("mode") == "stepwise":
+            return False
+    if m["model"] in ("identity", "first"):
+        n_in = sum(n_columns(s, H) for s in m["inputs"])
+        if H != 1 or (m["model"] == "identity" and n_in != 1):
+            return False
+    return True
+
+
 def model_ok(m, w):
+    """Static applicability table (what the documentation says works) + shape constraints."""
     kind = w.get("kind", "european")
+    if not model_shape_ok(m, w):
+        return False
     if m["model"] in ("bs", "ww"):
         if kind not in market.OPTION_KINDS or w["ul"] in NO_VOL_UL:
             return False
         if kind in ("lookback", "american_binary") and not w.get("call", True):
-            return False
-        H = {"default": 1, "ul": 1, "listed": 1}.get(w.get("hedge", "default"), 2)
-        if H != 1:
-            return False
-        if m["model"] == "ww" and m.get("mode") == "stepwise":
             return False
     if m["model"] in ("identity", "first"):
         H = {"default": 1, "ul": 1, "listed": 1}.get(w.get("hedge", "default"), 2)
